@@ -573,9 +573,11 @@ class FileStream(Stream):
                 **({"own_kinds": case["own_kinds"]} if case.get("own_kinds") else {})}
 
 
+import c17s12     # noqa: E402  (needs the classes above)
+
 PROPERTY = Property(
     pid="C17",
-    streams=[Dep5GlobStream2(), WitnessStream(), FileStream()],
+    streams=[Dep5GlobStream2(), WitnessStream(), FileStream()] + c17s12.STREAMS,
     assumptions=[
         "python-debian's globs_to_re is modelled by Model.dep5Blocks (validated exhaustively to the stated bound); its paragraph parser and tomlkit's serialiser are exercised end-to-end by the file stream, not modelled",
         "the glob theorem is partial: dep5 globs with an unescaped '?' or with an asterisk run directly followed by '/' are excluded (known findings)",
